@@ -87,18 +87,14 @@ Definition deviations_on_samples : list (bst * revent) :=
 (** the cells in which yabgp departs from the profile (each one a known finding, see props/C01.v) *)
 Definition deviation (s : bst) (e : revent) : bool :=
   match s, e with
-  | (StOpenSent | StOpenConfirm), EvManualStop => true     (* no Cease *)
   | StOpenSent, EvNotifOther => true                       (* closed without FSM-error NOTIFICATION *)
-  | StOpenSent, EvKeepaliveMsg => true                     (* ignored *)
   | StEstablished, EvOpenErr _ => true                     (* (2,sub) instead of (5,0) *)
-  | StEstablished, EvNotifVersion => true                  (* ignored *)
   | _, _ => false
   end.
 
 Lemma deviations_exact :
   deviations_on_samples =
-  [(StOpenSent, EvManualStop); (StOpenSent, EvNotifOther); (StOpenSent, EvKeepaliveMsg);
-   (StOpenConfirm, EvManualStop); (StEstablished, EvOpenErr 2); (StEstablished, EvNotifVersion)].
+  [(StOpenSent, EvNotifOther); (StEstablished, EvOpenErr 2)].
 Proof. vm_compute. reflexivity. Qed.
 
 (** worlds of the single-connection regime in state s: the FSM tracks connection c; in a
